@@ -3,7 +3,7 @@ package main
 func init() { register("C11", propC11) }
 
 func propC11(r *Report, tier string) {
-	r.Explanation = "Structural necessary conditions of 'safe under concurrent use; Close always completes', decided on every path of every bleve function: (K1) every mutex acquisition is paired with a release or deferred release on all non-panicking exits."
+	r.Explanation = "Structural necessary conditions of 'safe under concurrent use; Close always completes', decided on every path of every bleve function: (K1) every mutex acquisition is paired with a release or deferred release on all non-panicking exits. (K4) fields of cachedFieldDocs filled by the goroutine that closes readyCh are read only after a receive from readyCh of the same object or under its mutex. (K5) the merger loop exits only in the closeCh case or on ErrClosed of a request that was not user-triggered."
 	r.NotCovered = "data races on fields outside the guarded-by tables, absence of panics, real deadlock freedom for all schedules, goroutine leaks inside third-party stores"
 	k1Locks(r, "K1-lock-pairing", nil)
 	r.Floor("K1-lock-pairing", 100)
